@@ -20,6 +20,7 @@ from pandapipes.idx_branch import MDOTINIT, AREA, LOSS_COEFFICIENT as LC, FROM_N
 from pandapipes.idx_node import PINIT, PAMB, TINIT as TINIT_NODE
 from pandapipes.pf.pipeflow_setup import get_fluid, get_net_option, get_lookup
 from pandapipes.pf.result_extraction import extract_branch_results_without_internals
+from pandapipes.properties.properties_toolbox import get_branch_real_density
 
 try:
     import pandaplan.core.pplog as logging
@@ -112,14 +113,16 @@ class Pump(BranchWOInternalsComponent):
             # p_to = node_pit[to_nodes, PAMB] + node_pit[to_nodes, PINIT]
             t_from = node_pit[from_nodes, TINIT_NODE]
             numerator_from = NORMAL_PRESSURE * t_from
-            v_mps = pump_branch_pit[:, MDOTINIT] / pump_branch_pit[:, AREA] / fluid.get_density(NORMAL_TEMPERATURE)
             if fluid.is_gas:
+                v_mps = pump_branch_pit[:, MDOTINIT] / pump_branch_pit[:, AREA] / fluid.get_density(NORMAL_TEMPERATURE)
                 # consider volume flow at inlet
                 normfactor_from = numerator_from * fluid.get_compressibility(p_from, t_from) \
                                   / (p_from * NORMAL_TEMPERATURE)
                 v_from = v_mps * normfactor_from
             else:
-                v_from = v_mps
+                # liquids: actual volume flow, as reported in res_pump.vdot_m3_per_s
+                v_from = pump_branch_pit[:, MDOTINIT] / pump_branch_pit[:, AREA] \
+                         / get_branch_real_density(fluid, node_pit, pump_branch_pit)
             vol = v_from * area
             if len(std_types):
                 fcts = itemgetter(*std_types)(net['std_types']['pump'])
